@@ -837,9 +837,14 @@ class Pregex():
         pattern = self._concat_conditional_group()
         pre = pre._concat_conditional_group()
 
-        pattern = pattern + pre if on_right else pre + pattern
+        left, right = (pattern, pre) if on_right else (pre, pattern)
 
-        return __class__(pattern, escape=False)
+        # Keep a numeric backreference from absorbing any digits that follow it.
+        if right[:1] in tuple("0123456789") and \
+            _re.search(r"(?<!\\)(?:\\\\)*\\\d+$", left) is not None:
+            left = f"(?:{left})"
+
+        return __class__(left + right, escape=False)
 
 
     def either(self, pre: _Union['Pregex', str], on_right: bool = True) -> 'Pregex':
